@@ -127,6 +127,30 @@ def programs(level, maxlen):
 
 D = [0, 1, 2]
 
+# hashes whose low 16 bits are close to 2^16: `hash + offset` carries into bit 16 (the reverse lookup of concrete locations is bucketed
+# by hash >> 16).  keccak(abi.encode(50, 6)) ends in 0xfffc; keccak(143) ends in 0xff3f (an entry of the precomputed table)
+K50, K6, K143 = ("k", 50), ("k", 6), ("k", 143)
+H143 = int.from_bytes(keccak((143).to_bytes(32, "big")), "big")
+BOUNDARY_GRID = [{"x": a, "y": b} for a in (50, 193, 1) for b in (4, 3, 193)]
+
+
+def boundary_programs():
+    """the same slot written through a concrete location (hash computed at run time from concrete data / precomputed constant, plus an
+    offset that crosses the 2^16 boundary) and through the symbolic form, in both orders"""
+    pairs = [
+        (("ADD", ("keccak2", K50, K6), ("k", 4)), ("ADD", ("keccak2", X, K6), ("k", 4))),      # m[50].f4 vs m[x].f4
+        (("ADD", ("keccak2", K50, K6), ("k", 4)), ("ADD", ("keccak2", K50, K6), Y)),            # ... vs m[50].f[y]
+        (("ADD", ("keccak2", K50, K6), ("k", 3)), ("ADD", ("keccak2", X, K6), ("k", 3))),      # control: no carry
+        (("ADD", ("keccak1", K143), ("k", 193)), ("ADD", ("keccak1", K143), X)),                # a[193] vs a[x], array at slot 143
+        (("ADD", ("k32", H143), ("k", 193)), ("ADD", ("keccak1", K143), X)),                    # precomputed constant + 193
+        (("k32", (H143 + 193) % 2**256), ("ADD", ("keccak1", K143), Y)),                        # the folded constant
+        (("ADD", ("k32", (H143 + 194) % 2**256), ("k", 2**256 - 1)), ("ADD", ("keccak1", K143), X)),  # (hash + 194) - 1: negative offset across the boundary
+    ]
+    for a, b in pairs:
+        yield [("sstore", a, VALS[0]), ("out", ("sload", b))]
+        yield [("sstore", b, VALS[0]), ("out", ("sload", a))]
+        yield [("sstore", a, VALS[0]), ("sstore", b, VALS[1]), ("out", ("sload", a)), ("out", ("sload", b))]
+
 
 INIT = 0x77  # contents of every slot that was never written when the account has symbolic storage (one admissible initial state)
 
@@ -145,11 +169,11 @@ def mk_spec(stmts, layout, symst=False):
 GRID = [{"x": a, "y": b} for a in D for b in D]
 
 
-def check_prog(acc, stmts, layout, symst=False):
+def check_prog(acc, stmts, layout, symst=False, grid=None):
     spec = mk_spec(stmts, layout, symst)
     name = grammar.prog_str(stmts)
     acc.count("programs")
-    case = {"stmts": stmts, "layout": layout, "symst": symst}
+    case = {"stmts": stmts, "layout": layout, "symst": symst, "boundary": grid is not None}
     if symst:
         acc.count("programs_symbolic_storage")
         layout = layout + "+symst"
@@ -158,7 +182,7 @@ def check_prog(acc, stmts, layout, symst=False):
     except Exception as e:
         acc.violation(f"crash:{type(e).__name__}:{layout}:{name}", f"halmos raised {type(e).__name__}: {e} on [{name}] layout={layout}", case)
         return
-    issues, stats = progcheck.check_program(spec, GRID, want_coverage=True, results=results)
+    issues, stats = progcheck.check_program(spec, grid or GRID, want_coverage=True, results=results)
     acc.count("paths", stats["paths"])
     acc.count("stuck_paths", stats["stuck"])
     acc.count("pairs", stats["pairs"])
@@ -248,6 +272,10 @@ def run_shard(shard):
     hdriver.install_uid()
     acc = Acc(max_violations=30)
     if shard["kind"] == "tables":
+        for stmts in boundary_programs():
+            for layout in ("solidity", "generic"):
+                check_prog(acc, stmts, layout, grid=BOUNDARY_GRID)
+                check_prog(acc, stmts, layout, symst=True, grid=BOUNDARY_GRID)
         check_tables(acc)
         acc.sample({"tables": "every entry of halmos/hashes.py recomputed with keccak; OffsetMap probed around every key"})
         return acc.result()
@@ -288,7 +316,7 @@ def replay(case):
     hdriver.install_uid()
     acc = Acc()
     if "stmts" in case:
-        check_prog(acc, detuple(case["stmts"]), case["layout"], case.get("symst", False))
+        check_prog(acc, detuple(case["stmts"]), case["layout"], case.get("symst", False), BOUNDARY_GRID if case.get("boundary") else None)
     else:
         check_tables(acc)
     v = acc.result()["violations"]
